@@ -146,6 +146,19 @@ func runC12(c *core.Ctx) {
 			}
 		}
 	}
+	// One case in six: a REFUSED load comes first and is not looked at (what a
+	// refused load leaves in spare storage - half-decoded elements beyond the
+	// live ones - must not leak into the next, successful one through null
+	// entries and omitted fields, which a decoder does not overwrite).
+	if ref == nil && r.Chance(1, 6) {
+		bad := replaceElement(r, d.GenDoc(r, r.Range(2, 12), false, false))
+		c.Begin(kind, "FromJSON", "refused-load-first(unobserved)", string(bad))
+		if err0 := d.JSON.FromJSON(bad); err0 != nil {
+			c.Count("attempt:refused-load-first", 1)
+		} else {
+			c.Count("attempt:refused-load-first-was-accepted", 1)
+		}
+	}
 	priorSize := d.C.Size()
 	if ref != nil {
 		priorSize = ref.C.Size() // (Size() of the reference: the container under test stays unobserved)
